@@ -626,7 +626,7 @@ class C11(C.Check):
                 cases.append((k, ctx.seed * 100 + j))
         n = 0
         per = {}
-        for kind, seed in cases:
+        for kind, seed in dict.fromkeys(cases):       # corpus first, no duplicates
             if kind not in KINDS:
                 continue
             try:
